@@ -199,7 +199,8 @@ def search(prefix, maxlen, res, variants):
 
 
 # =================================================================== (b) corpora
-WORDS = ['a', ',', '&', '<', '"', "'", 'ä', '日', '#', '-LRB-', '*T*-1', 'b', '#7', '#12', '#1234']
+WORDS = ['a', ',', '&', '<', '"', "'", 'ä', '日', '#', '-LRB-', '*T*-1', 'b', '#7', '#12', '#1234',
+         '&amp;', 'cafe\u0301', '%', '%5', '-RSB-', '\u212b']
 LABELS = ['NP-SBJ-1', 'NP=2', 'S', 'VP-HD', 'PP', "AP'", 'APPR-', 'NX--3']
 
 
@@ -267,7 +268,7 @@ EXPORT_LAYOUTS = [dict(), dict(version=4), dict(header=True), dict(comments=True
 BRACKET_LAYOUTS = [dict(), dict(layout='spaced'), dict(layout='airy'), dict(layout='indented'), dict(layout='oneline'),
                    dict(empty_root=True), dict(trailing_newline=False), dict(lead='junk text ) more\n'),
                    dict(layout='indented', empty_root=True)]
-DISCO_LAYOUTS = [dict(), dict(layout='spaced')]
+DISCO_LAYOUTS = [dict(), dict(layout='spaced'), dict(raw_parens=True)]
 TIGER_LAYOUTS = [dict(), dict(nt_order='pre'), dict(nt_order='rev'), dict(edge_order='rev'), dict(edge_order='rot'),
                  dict(attr_order='rev'), dict(secedges=True), dict(id_style='s'), dict(id_style='under'),
                  dict(implicit_vroot=True), dict(head=True),
@@ -389,6 +390,10 @@ def write_file(fmt, text, opts, binary_enc):
 def check_corpus(fmt, mtjs, layout, opts):
     mts = [model.MT.from_json(j) for j in mtjs]
     layout = dict(layout)
+    if layout.pop('raw_parens', False):
+        # the tree part of a discobracket line holds indices only: parentheses may stand unescaped in the sentence part
+        mts = [model.MT(m.sid, [dict(tk, word={'a': '(', 'b': ')'}.get(tk['word'], tk['word'])) for tk in m.toks], m.root)
+               for m in mts]
     if isinstance(layout.get('numbering'), list):
         layout['numbering'] = tuple(layout['numbering'])
     case = {'fmt': fmt, 'corpus': mtjs, 'layout': layout, 'opts': opts}
